@@ -23,13 +23,17 @@ class TraceLock:
     def __init__(self, real, log):
         self.real, self.log = real, log
 
+    CAP = 4000        # a runaway call must not grow the log without bound
+
     def acquire(self, *a, **k):
         r = self.real.acquire(*a, **k)
-        self.log.append("acq")
+        if len(self.log) < self.CAP:
+            self.log.append("acq")
         return r
 
     def release(self):
-        self.log.append("rel")
+        if len(self.log) < self.CAP:
+            self.log.append("rel")
         return self.real.release()
 
     def __enter__(self):
@@ -38,6 +42,25 @@ class TraceLock:
 
     def __exit__(self, *a):
         self.release()
+
+
+class Abandoned(BaseException):
+    """raised inside a worker whose call did not return in time (not an Exception: library handlers let it through)"""
+
+
+class BudgetSched(util.Sched):
+    """util.Sched with a line budget: a thread that never finishes (a loop that does not end) stops the run instead
+    of consuming schedule entries and memory for ever."""
+    LIMIT = 30000
+
+    def yield_(self, tid):
+        if len(self.trace) > self.LIMIT:
+            with self.cv:
+                self.runaway = True
+                self.deadlock = True
+                self.cv.notify_all()
+            raise SystemExit
+        return super().yield_(tid)
 
 
 class Worker:
@@ -66,10 +89,16 @@ class Worker:
             ev.set()
 
     def call(self, fn, timeout):
+        import ctypes
         import threading
         box, ev = {}, threading.Event()
         self.q.put((fn, box, ev))
         if not ev.wait(timeout):
+            # The call did not come back.  If it is spinning (a loop that never ends) stop it, or thousands of such
+            # threads would eat the machine: raise a BaseException asynchronously in that thread (takes effect at its
+            # next bytecode; a thread blocked inside lock.acquire() never sees it and just stays parked).
+            ctypes.pythonapi.PyThreadState_SetAsyncExc(ctypes.c_ulong(self.th.ident), ctypes.py_object(Abandoned))
+            self.q.put(None)
             return "hang", None
         if "e" in box:
             return "raise", box["e"]
@@ -141,7 +170,7 @@ def trace_is_path(facts, method, evs):
     return method in bodies and n in run(bodies[method], {0})
 
 
-METHOD_OF = {"ingest": "ingest", "ingestat": "ingest", "ingest_error": "ingest_error", "ingest_sensitive": "ingest_sensitive",
+METHOD_OF = {"prune": "ingest", "ingest": "ingest", "ingestat": "ingest", "ingest_error": "ingest_error", "ingest_sensitive": "ingest_sensitive",
              "digest": "digest", "autophagy": "autophagy", "clearbin": "clear_recycling_bin"}
 
 
@@ -218,8 +247,10 @@ class C13(Prop):
         r = rng.random()
         c = rng.choice([0, 1, 2, 3, 2, 3, 5, 6, 7])
         i = rng.choice([nid, nid, nid, rng.randint(1, 3)])
-        if r < 0.40:
+        if r < 0.36:
             return f"ingest {rng.choice(TYPES)} {i} {c}"
+        if r < 0.40:
+            return f"prune {i} {rng.choice([1, 1, 1, 0])}"
         if r < 0.47:
             return f"ingest_error {i} {max(1, c)}"
         if r < 0.56:
@@ -249,6 +280,20 @@ class C13(Prop):
             if threads and rng.random() < 0.4 and not op.startswith("adv"):
                 op = f"@{rng.choice([1, 1, 2])} " + op
             lines.append(op)
+        return lines
+
+    def _shared_with_daemon(self, rng):
+        """the application's items (some with raising digesters) are queued, the daemon prunes into the same object"""
+        mq = rng.choice([4, 6, 8, 1000])
+        lines, nid = [f"cfg {mq} {rng.choice([mq + 1, 1000, 4, 2])} {rng.choice(RETS)} ssss {rng.choice('bbs')} set"], 0
+        for _ in range(rng.randint(1, 3)):
+            nid += 1
+            lines.append(f"ingest {rng.choice(TYPES)} {nid} {rng.choice([0, 0, 2, 3])}")
+        for _ in range(rng.randint(1, 3)):
+            nid += 1
+            lines.append(rng.choice([f"prune {nid} 1", f"prune {nid} 1", f"@1 prune {nid} 1", f"prune {nid} 0",
+                                     f"ingest exp {nid} 0", "digest 1"]))
+        lines.append(rng.choice(["digest none", "digest 1", "autophagy"]))
         return lines
 
     def _fault_then_other_thread(self, rng):
@@ -307,6 +352,9 @@ class C13(Prop):
             elif r < 0.24:
                 yield {"lines": self._fault_then_other_thread(rng),
                        "note": "a call raises inside a locked region, then calls from other living threads"}
+            elif r < 0.28:
+                yield {"lines": self._shared_with_daemon(rng),
+                       "note": "lysosome shared by an application and an AutophagyDaemon"}
             else:
                 yield {"lines": self._history(rng, rng.choice([1, 2, 3, 4, 6, 8, 10, 12, 14])), "note": "random history"}
 
@@ -363,6 +411,8 @@ class C13(Prop):
 
         def code(w):
             c = w.content
+            if isinstance(c, dict) and "summary_hash" in c and hasattr(w, "vf"):
+                return {"c": 1, "seq": w.vf[0], "id": w.vf[1]}          # the daemon's flushed context
             if isinstance(c, dict) and "c" not in c and isinstance(c.get("context"), dict):
                 c = c["context"]
             return c
@@ -407,6 +457,10 @@ class C13(Prop):
         def ingest_at_fake_time(waste):      # Waste.created_at's default factory captured the real datetime.now
             if not hasattr(waste, "vf"):
                 waste.created_at = clock.now()
+                if ctx.get("daemon_vf") is not None:      # the waste the AutophagyDaemon builds in check_and_prune
+                    waste.vf = ctx["daemon_vf"]
+                    ctx["daemon_vf"] = None
+                    ctx["seq"] += 1
             return orig(waste)
         lys.ingest = ingest_at_fake_time
         ctx["reentrant"] = "RLock" in type(lys._lock).__name__
@@ -470,6 +524,24 @@ class C13(Prop):
             seq = ctx["seq"]
             ctx["seq"] += 1
             lys.ingest_sensitive({"c": c, "seq": seq, "id": i}, source="h")
+            return "ok"
+        if op == "prune":
+            # the AutophagyDaemon sharing this lysosome: check_and_prune flushes the raw context into it
+            i, force = int(t[1]), t[2] == "1"
+            if "daemon" not in ctx:
+                from operon_ai.healing.autophagy_daemon import AutophagyDaemon
+                from operon_ai.state.histone import HistoneStore
+                ctx["daemon"] = AutophagyDaemon(histone_store=HistoneStore(silent=True), lysosome=lys,
+                                                summarizer=lambda text: text[:40], silent=True)
+            if force:
+                ctx["types"][ctx["seq"]] = "exp"
+                ctx.setdefault("ids", {})[ctx["seq"]] = i
+                ctx["daemon_vf"] = (ctx["seq"], i)
+            context = "\n".join(f"step {k}: did something useful with the data" for k in range(120 if force else 2))
+            _new, res = ctx["daemon"].check_and_prune(context, 8000, force=force)
+            ctx["daemon_vf"] = None
+            if (res is not None) != force:
+                raise RuntimeError("harness: prune did not behave as scripted")
             return "ok"
         if op == "digest":
             k = None if t[1] == "none" else int(t[1])
@@ -613,7 +685,9 @@ class C13(Prop):
                         if kind == "raise":
                             snap["raise"] = type(val).__name__
                         facts = getattr(self, "facts", None)
-                        if facts and facts.get("recognised") and not trace_is_path(facts, METHOD_OF[t[0]], evs):
+                        no_call = t[0] == "prune" and t[2] == "0"      # nothing to flush: the lysosome is not touched
+                        if facts and facts.get("recognised") and not (
+                                evs == [] if no_call else trace_is_path(facts, METHOD_OF[t[0]], evs)):
                             d += " lock-trace-not-a-path-of-the-extracted-shape[" + ",".join(evs) + "]"
                         self.traces_checked = getattr(self, "traces_checked", 0) + 1
                         obs.append(head + " | " + d)
@@ -638,6 +712,8 @@ class C13(Prop):
             return len(t) == 3 and t[1].isdigit() and t[2].isdigit() and int(t[2]) >= 1
         if t[0] == "ingest_sensitive":
             return len(t) == 3 and t[1].isdigit() and t[2].isdigit()
+        if t[0] == "prune":
+            return len(t) == 3 and t[1].isdigit() and t[2] in ("0", "1")
         if t[0] == "digest":
             return len(t) == 2 and (t[1] == "none" or isint(t[1]))
         if t[0] in ("autophagy", "clearbin"):
@@ -654,7 +730,7 @@ class C13(Prop):
             return "conc", None
         rng = random.Random(int(t[1]))
         progs = [[op.split(",") for op in p.split(";")] for p in t[2:4]]
-        sched = util.Sched(util.burst_schedule(rng, 2, 600), [self.file])
+        sched = BudgetSched(util.burst_schedule(rng, 2, 600), [self.file])
         reentrant = ctx["reentrant"]
         real = lys._lock
         alog = []
@@ -672,6 +748,10 @@ class C13(Prop):
         finished = sched.run([body(i, p) for i, p in enumerate(progs)],
                              join_timeout=20 if self.hangs_seen < 2 else 3)
         ctx["alog"] = None
+        if not finished:                 # make whatever is still running stop at its next line
+            with sched.cv:
+                sched.deadlock = True
+                sched.cv.notify_all()
         dead = (not finished) or sched.deadlock or any(r is None or r[0] != "ok" for r in sched.results)
         snap = {"conc": True, "finished": finished, "deadlock": sched.deadlock,
                 "results": [None if r is None else (r[0] if r[0] != "raise" else f"raise:{type(r[1]).__name__}")
@@ -741,11 +821,14 @@ class C13(Prop):
                 continue
             if o in ("bad-op", "dead") or mq is None:
                 continue
-            is_call = t[0] in ("ingest", "ingestat", "ingest_error", "ingest_sensitive", "digest", "autophagy", "conc")
+            is_call = t[0] in ("prune", "ingest", "ingestat", "ingest_error", "ingest_sensitive", "digest", "autophagy", "conc")
             if not is_call:
                 if snap is not None and "bin" in snap:
                     prev_bin = snap["bin"]
                 continue
+            if t[0] == "prune" and t[2] == "1":      # the daemon ingests exactly one EXPIRED_CACHE item
+                types[n_ing] = "exp"
+                n_ing += 1
             if t[0].startswith("ingest"):
                 types[n_ing] = "tox" if t[0] == "ingest_sensitive" else ("fop" if t[0] == "ingest_error" else
                                                                           (t[2] if t[0] == "ingestat" else t[1]))
